@@ -295,6 +295,8 @@ def run(ctx):
     ctx.run_rule('C15.6', 'T2', 'whether the inputs are compiled does not depend on how they are split between sources and references', _c07.r_every_input_compiled, prog)
     ctx.run_rule('C15.2c', 'T1', 'which element a name denotes does not depend on the order of the files: definitions are last-writer-wins, a module never takes a name', _c03.r_name_table_single_writer, prog)
     ctx.run_rule('C15.4e', 'T13', 'what a type reference resolves to is worked out from that reference under the recorded conditions (the ledger of the type patcher: a step that is skipped because an earlier reference was resolved - a memo across references - shows as a moved or missing site)', _c03.r_patcher_preconditions, prog)
+    import perfile as _perfile
+    ctx.run_rule('C15.3d', 'T2', 'what a failed file added to the name table is taken out again (it would otherwise take names from files parsed before it, depending on the order)', _perfile.r_failed_file_leaves_no_names, prog)
     ctx.run_rule('C15.5c', 'T10', 'each file of the generator request is converted from that file alone', r_request_file_from_file_alone, prog)
     ctx.run_rule('C15.2b', 'T1', 'the table of seen definitions is written only by the step that also checks and reports', r_symmetric_redefinition_table, prog)
     ctx.run_rule('C15.5', 'T10', 'the diagnostics emitted and counted are exactly what into_updated returned', r_emitted_is_updated, prog)
